@@ -14,12 +14,14 @@ import abacusnbody.analysis.tsc as tsc
 ID = 'C17'
 BOUNDS = {
     'quick': 'N in 0..3 particles (free real coordinates in [0,box] inclusive, free weights), npartition in 1..3, nthread in {1,2,5}, '
-             'coord in {0,1,2}, weights in {None, given}, sort in {F,T}',
-    'thorough': 'N in 0..4, npartition in 1..4, nthread in {1,2,3,5}, all coord/weights/sort combinations',
+             'coord in {0,1,2}, weights in {None, given}, sort in {F,T}; IEEE-754 schedule lemma (symnb.fpsched): the per-thread particle '
+             'blocks tstart tile [0,N) for EVERY N in [0, 2^31] under float64 arithmetic, nthread in {3,7}',
+    'thorough': 'N in 0..4, npartition in 1..4, nthread in {1,2,3,5}, all coord/weights/sort combinations; schedule lemma for nthread 1..16, 32, 64',
 }
 OUTSIDE = 'float32 evaluation of the key (real model: a coordinate within rounding of a stripe edge may land in the neighbour ' \
           'stripe in floating point); N above the bound'
-STUBS = ['argsort: any permutation that sorts its input (contract stub; forks over all such permutations)']
+STUBS = ['argsort: any permutation that sorts its input (contract stub; forks over all such permutations)',
+         'schedule lemma: np.linspace as implemented by numba on Float64 terms; element loops recorded as intervals, not iterated']
 ASSUMPTIONS = ['floats are reals', 'box > 0', 'coordinates in [0, box] inclusive']
 MUST_COVER = {'abacusnbody.analysis.tsc.partition_parallel': 0}
 
@@ -129,10 +131,15 @@ def items(tier, seed):
                             combos.append((coord, ww, sort))
                 out.append(dict(name=f'N={N}/npart={npart}/nthread={nt}', N=N, npart=npart, nt=nt, combos=combos))
     out.append(dict(name='N=2/npart=2/nthread=-1(default=8)', N=2, npart=2, nt=-1, combos=[(0, True, False)]))
+    from checks import schedlib
+    out += schedlib.items(['partition_parallel'], [3, 7] if tier == 'quick' else list(range(1, 17)) + [32, 64])
     return out
 
 
 def run(item):
+    if item.get('kind') == 'fpsched':
+        from checks import schedlib
+        return schedlib.run(item)
     acc = None
     for coord, ww, sort in item['combos']:
         r = common.run_paths(lambda: body(item['N'], item['npart'], item['nt'], coord, ww, sort), cov_funcs=FUNCS)[0]
@@ -179,6 +186,9 @@ def validate(tier):
 def replay(e, path):
     i = e['info'].get('case', {})
     m = e.get('model', {})
+    if i.get('kind') == 'fpsched':
+        from checks import schedlib
+        return schedlib.replay(e, path)
     body_ = f'''
 from fractions import Fraction as F
 import abacusnbody.analysis.tsc as tsc
